@@ -161,6 +161,24 @@ def check_named(ctx, M, y, p, g, w, cy, cp, cg, cw, only=None):
                       y_true=y, y_pred=p, groups=g, weights=w, got=repr(got), expected=cands)
 
 
+def check_default_method(ctx, M, y, p, g, w, cy, cp, cg, cw):
+    """The functions are long-lived objects: a call relying on the default method, made right after a call with
+    method='to_overall', must still return the between_groups value."""
+    kw = {} if cw is None else {"sample_weight": cw}
+    srv, sro = _group_metric(_rate_fn("selection_rate", y, p, w), y, p, g, w)
+    tpv, tpo = _group_metric(_rate_fn("true_positive_rate", y, p, w), y, p, g, w)
+    for name, vals, overall, tr in (("demographic_parity_difference", srv, sro, "difference"), ("selection_rate_difference", srv, sro, "difference"),
+                                    ("selection_rate_ratio", srv, sro, "ratio"), ("true_positive_rate_difference", tpv, tpo, "difference"),
+                                    ("equal_opportunity_ratio", tpv, tpo, "ratio")):
+        f = getattr(M, name)
+        f(cy, cp, sensitive_features=cg, method="to_overall", **kw)
+        got = f(cy, cp, sensitive_features=cg, **kw)
+        cands = _transform(vals, overall, tr, "between_groups")
+        ctx.ev("named_values_compared")
+        ctx.check(np.ndim(got) == 0 and _accept(got, cands), "default_method_is_not_between_groups_after_a_to_overall_call:%s" % name,
+                  y_true=y, y_pred=p, groups=g, weights=w, got=repr(got), expected=cands)
+
+
 GEN_RATES = ["true_positive_rate", "true_negative_rate", "false_positive_rate", "false_negative_rate", "selection_rate"]
 
 
@@ -234,6 +252,7 @@ def run_case(cls, key, seed, ctx):
         check_named(ctx, M, y, p, g, w, cy, cp, cg, cw)
         if rng.random() < 0.4:
             check_genrates(ctx, M, y, p, g, w, cy, cp, cg, cw)
+        check_default_method(ctx, M, y, p, g, w, cy, cp, cg, cw)
         return
     if cls == "rand_generated":
         return _run_generated(ctx, M, rng)
